@@ -328,6 +328,7 @@ func checkC08(r *Run) {
 	} else {
 		r.Inconclusive("vh-race binary missing")
 	}
+	c08OrderCheck(r)
 	if builds < int64(nproj*runs*8/10) || len(orders) < nproj {
 		r.Inconclusive(fmt.Sprintf("only %d builds, %d distinct load orders", builds, len(orders)))
 	}
